@@ -39,7 +39,8 @@ def gen_example(rnd, idx):
 GEN = {"task": plangen.gen_task, "sync": plangen.gen_sync, "cyc": plangen.gen_cyc, "sx": plangen.gen_sx, "sv": plangen.gen_sv, "rr": plangen.gen_rr, "tl": plangen.gen_tl, "rules": plangen.gen_rules, "examples": gen_example}
 # which families each property runs (the others' failures are counted, not reported)
 FAMILIES = {"C01": ["sv", "rr", "rules", "sx", "sync"], "C02": ["sv", "rr", "rules", "sx", "cyc", "sync", "task"], "C03": ["rules", "sv", "cyc", "task", "examples"], "C04": ["sv", "sx", "sync", "task", "examples"], "C05": ["rr", "sx", "task", "examples"],
-            "C06": ["tl", "sv", "rr", "sx", "sync", "task", "examples"]}
+            "C06": ["tl", "sv", "rr", "sx", "sync", "task", "examples"],
+            "C16": ["sv", "rr", "tl", "rules", "sx", "cyc", "sync", "task"]}
 
 
 def fr(v):
@@ -497,6 +498,9 @@ def work(exes, family, start, n, owner):
                         part.inconc("z3 unknown")
             elif st in ("read-error", "solve-error"):
                 part.count("%s: rejected with another error: %s" % (family, msg[:50]))
+                if family != "examples":
+                    import re
+                    fails.append(("C16", "%s/valid-program-rejected/%s" % (family, re.sub(r"\[\d+, \d+\] ", "", msg)[:60]), "a valid generated planning problem is rejected with an error: " + msg))
             nontriv = owner == "C02"
         part.case(fp, nontriv, {"program": case["text"][:1500], "variant": variant, "outcome": st})
         done = set()
